@@ -153,7 +153,14 @@ LIBM.update(fmax=max, fmin=min, M_PI=math.pi, M_E=math.e,
             M_LN2=math.log(2.0), M_LN10=math.log(10.0), M_PI_2=math.pi / 2,
             M_PI_4=math.pi / 4, M_1_PI=1.0 / math.pi, M_2_PI=2.0 / math.pi,
             M_2_SQRTPI=2.0 / math.sqrt(math.pi), M_SQRT2=math.sqrt(2.0),
-            M_SQRT1_2=math.sqrt(0.5))
+            M_SQRT1_2=math.sqrt(0.5), INFINITY=math.inf, NAN=math.nan)
+
+
+def _dsl_names():
+    """`declare` is a keyword of the equation language: compyle's pure
+    Python implementation (numpy arrays for matrices)."""
+    from compyle.api import declare
+    return dict(declare=declare)
 
 
 def bind_math(func, extra=None):
@@ -162,9 +169,14 @@ def bind_math(func, extra=None):
     g = func.__globals__
     code = func.__code__
     add = dict(extra or {})
+    dsl = None
     for n in code.co_names:
-        if n not in g and not hasattr(builtins, n) and n in LIBM:
-            add[n] = LIBM[n]
+        if n not in g and not hasattr(builtins, n):
+            if n in LIBM:
+                add[n] = LIBM[n]
+            elif n == 'declare':
+                dsl = dsl or _dsl_names()
+                add[n] = dsl[n]
     if not add:
         return func
     ng = dict(g)
@@ -182,10 +194,11 @@ class Checked(np.ndarray):
     def _ok(self, i):
         if isinstance(i, (int, np.integer)):
             if i < 0 or i >= self.shape[0]:
-                raise IndexError('index %d out of range 0..%d' % (
-                    i, self.shape[0] - 1))
+                raise IndexError('index %d of <%s> out of range 0..%d' % (
+                    i, getattr(self, 'pname', '?'), self.shape[0] - 1))
         elif not isinstance(i, slice):
-            raise IndexError('index %r is not an integer' % (i,))
+            raise IndexError('index %r of <%s> is not an integer' % (
+                i, getattr(self, 'pname', '?')))
 
     def __getitem__(self, i):
         self._ok(i)
@@ -291,7 +304,10 @@ class RefExec(object):
     # -- arguments -----------------------------------------------------------
     def arr(self, pa, name):
         a = pa.get_carray(name).get_npy_array()
-        return a.view(Checked) if self.checked else a
+        if self.checked:
+            a = a.view(Checked)
+            a.pname = name
+        return a
 
     def method(self, eq, hook):
         key = (id(eq), hook)
@@ -309,6 +325,24 @@ class RefExec(object):
             m = (bind_math(f, helpers), args)
             self._meth[key] = m
         return m
+
+    def py_reduce(self, eq):
+        """`reduce` is transpiled into the generated module, whose name
+        parallel_reduce_array is the serial-mode dummy_reduce_array (mode
+        'serial' of AccelerationEval)."""
+        key = (id(eq), 'reduce')
+        f = self._meth.get(key)
+        if f is None:
+            from pysph.base.reduce_array import (dummy_reduce_array,
+                                                 serial_reduce_array)
+            g = type(eq).reduce
+            ng = dict(bind_math(g).__globals__)
+            ng.update(parallel_reduce_array=dummy_reduce_array,
+                      serial_reduce_array=serial_reduce_array)
+            f = types.FunctionType(g.__code__, ng, g.__name__,
+                                   g.__defaults__, g.__closure__)
+            self._meth[key] = f
+        return f
 
     def call(self, eq, hook, darr, d_idx, sarr=None, s_idx=None, syms=None,
              nbrs=None):
@@ -436,7 +470,7 @@ class RefExec(object):
                     self.call(e, 'post_loop', darr, di)
         for e in per('reduce'):                       # red
             self.ev('reduce', self.eq_ids[id(e)])
-            e.reduce(dst, self.t, self.dt)
+            self.py_reduce(e)(e, dst, self.t, self.dt)
 
     # -- FlatBody / RunSub / Pass / Iterate / RunGroup / Run -----------------
     def update(self):
